@@ -813,6 +813,28 @@ func init() {
 			e.mapStoreIf(s, m, k, v, c, "vfPutIf")
 			return nil, false
 		},
+		"vfTagged": func(e *Engine, s *State, f *Frame, x ssa.Value, fn *ssa.Function, args []Value, at ssa.Instruction) ([]*State, bool) {
+			// *T whose every scalar leaf equals the tag: an abstract crypto object identified by tag
+			pt := fn.Signature.Results().At(0).Type().(*types.Pointer)
+			e.setRes(f, x, Ptr{Obj: s.alloc(taggedOf(pt.Elem(), args[0].(Sc).T))})
+			return nil, false
+		},
+		"vfTagOf": func(e *Engine, s *State, f *Frame, x ssa.Value, fn *ssa.Function, args []Value, at ssa.Instruction) ([]*State, bool) {
+			v := args[0].(If).V
+			if p, ok := v.(Ptr); ok {
+				if p.Nil {
+					e.setRes(f, x, Sc{BVu(0, 64)})
+					return nil, false
+				}
+				v = s.load(p)
+			}
+			t := firstLeaf(v)
+			if t == nil {
+				panic(engErr("vfTagOf: no scalar leaf"))
+			}
+			e.setRes(f, x, Sc{Resize(t, 64, false)})
+			return nil, false
+		},
 		"vfParam": func(e *Engine, s *State, f *Frame, x ssa.Value, fn *ssa.Function, args []Value, at ssa.Instruction) ([]*State, bool) {
 			n := cint(args[1])
 			if v, ok := e.params[cstr(args[0])]; ok {
@@ -1141,3 +1163,54 @@ func (e *Engine) deepCopy(s *State, v Value, seen map[int]int) Value {
 }
 
 var _ = big.NewInt
+
+func taggedOf(t types.Type, tag *Term) Value {
+	switch u := t.Underlying().(type) {
+	case *types.Basic:
+		if w, _, ok := intWidth(t); ok {
+			return Sc{Resize(tag, w, false)}
+		}
+	case *types.Struct:
+		st := St{make([]Value, u.NumFields())}
+		for i := range st.F {
+			st.F[i] = taggedOf(u.Field(i).Type(), tag)
+		}
+		return st
+	case *types.Array:
+		if isByte(u.Elem()) {
+			arr := ZeroMem
+			for i := 0; i < int(u.Len()); i++ {
+				arr = Store(arr, Idx(i), Extract(7, 0, tag))
+			}
+			return BA{A: arr, N: int(u.Len())}
+		}
+		ar := Ar{make([]Value, u.Len())}
+		for i := range ar.E {
+			ar.E[i] = taggedOf(u.Elem(), tag)
+		}
+		return ar
+	}
+	return zero(t)
+}
+
+func firstLeaf(v Value) *Term {
+	switch x := v.(type) {
+	case Sc:
+		if x.T.S.K == 1 {
+			return x.T
+		}
+	case St:
+		for _, f := range x.F {
+			if t := firstLeaf(f); t != nil {
+				return t
+			}
+		}
+	case Ar:
+		for _, f := range x.E {
+			if t := firstLeaf(f); t != nil {
+				return t
+			}
+		}
+	}
+	return nil
+}
